@@ -30,6 +30,9 @@ pub struct RespEv {
     pub supported_100rel: bool,
     pub rseq: bool,
     pub session_expires: Option<u32>,
+    /// further raw header lines (used by C02 to put hostile values into the responses)
+    #[serde(default)]
+    pub extra: Vec<String>,
 }
 
 #[derive(Serialize, Deserialize, Clone, Debug, Hash)]
@@ -62,6 +65,7 @@ fn resp_strategy() -> BoxedStrategy<RespEv> {
             supported_100rel,
             rseq,
             session_expires,
+            extra: vec![],
         })
         .boxed()
 }
@@ -104,6 +108,7 @@ pub fn exhaustive_cases(tier: Tier) -> Vec<Case> {
                         supported_100rel: false,
                         rseq: false,
                         session_expires: None,
+                        extra: vec![],
                     })
                     .collect(),
                 rng: cur.len() as u8,
@@ -327,6 +332,7 @@ pub fn run(case: &Case) -> Observed {
                         extra.push(format!("Session-Expires: {se};refresher=uas"));
                     }
                 }
+                extra.extend(r.extra.iter().cloned());
                 let tag = r.tag.map(|t| format!("t{t}"));
                 let bytes = response_text(inv, r.code, tag.as_deref(), &extra);
                 inject(&endpoint, &tp, peer, &bytes);
